@@ -4,3 +4,250 @@
 /// The crate-private allocator interface, so that the harness can drive the collections with
 /// a fault-injecting allocator.
 pub use crate::alloc::{AllocError, AllocProxy, Allocator, CaoLangAllocator, SysAllocator};
+
+use crate::value::Value;
+use crate::vm::runtime::cao_lang_object::{CaoLangObject, CaoLangObjectBody, GcMarker};
+use crate::vm::runtime::RuntimeData;
+use std::cell::RefCell;
+use std::collections::HashSet;
+use std::ptr::NonNull;
+use std::sync::atomic::Ordering;
+
+/// (allocated, next_gc, limit) of the VM's allocator
+pub fn alloc_counters(rt: &RuntimeData) -> (usize, usize, usize) {
+    let a: &CaoLangAllocator = &rt.memory;
+    (
+        a.allocated.load(Ordering::Relaxed),
+        a.next_gc.load(Ordering::Relaxed),
+        a.limit.load(Ordering::Relaxed),
+    )
+}
+
+/// (value stack height, call stack depth)
+pub fn stack_heights(rt: &RuntimeData) -> (usize, usize) {
+    (rt.value_stack.len(), rt.call_stack.len())
+}
+
+pub fn object_count(rt: &RuntimeData) -> usize {
+    rt.object_list.len()
+}
+
+pub fn global_count(rt: &RuntimeData) -> usize {
+    rt.global_vars.len()
+}
+
+/// Layout constants of the compiled crate: (size, align) of an object header and of a Value
+pub fn layouts() -> [(usize, usize); 2] {
+    [
+        (
+            std::mem::size_of::<CaoLangObject>(),
+            std::mem::align_of::<CaoLangObject>(),
+        ),
+        (std::mem::size_of::<Value>(), std::mem::align_of::<Value>()),
+    ]
+}
+
+// ---------------------------------------------------------------------------------------------
+// allocation events
+
+#[derive(Debug, Clone, Copy, PartialEq, Eq)]
+pub enum AllocEvent {
+    /// alloc(size, align) entered
+    AllocBegin { size: usize, align: usize },
+    GcBegin,
+    GcEnd,
+    /// alloc returned; counters after
+    AllocEnd { ok: bool, allocated: usize, next_gc: usize },
+    Dealloc { size: usize, align: usize, allocated: usize },
+}
+
+thread_local! {
+    static EVENTS: RefCell<Option<Vec<AllocEvent>>> = const { RefCell::new(None) };
+    /// Some((next allocation index, indices at which a collection is forced; None = at every one))
+    static FORCE_GC: RefCell<Option<(u64, Option<Vec<u64>>)>> = const { RefCell::new(None) };
+    static GC_COUNT: RefCell<u64> = const { RefCell::new(0) };
+}
+
+pub fn record_events(on: bool) {
+    EVENTS.with(|e| *e.borrow_mut() = if on { Some(Vec::new()) } else { None });
+}
+
+pub fn take_events() -> Vec<AllocEvent> {
+    EVENTS.with(|e| match e.borrow_mut().as_mut() {
+        Some(v) => std::mem::take(v),
+        None => Vec::new(),
+    })
+}
+
+pub(crate) fn event(ev: AllocEvent) {
+    EVENTS.with(|e| {
+        if let Some(v) = e.borrow_mut().as_mut() {
+            v.push(ev)
+        }
+    });
+    if matches!(ev, AllocEvent::GcEnd) {
+        GC_COUNT.with(|c| *c.borrow_mut() += 1);
+    }
+}
+
+/// Number of collections since the thread started
+pub fn gc_count() -> u64 {
+    GC_COUNT.with(|c| *c.borrow())
+}
+
+/// Force a collection at the given allocation indices (counted from this call, 0-based);
+/// `Some(None)` forces one at every allocation, `None` switches forcing off.
+pub fn force_gc_at(schedule: Option<Option<Vec<u64>>>) {
+    FORCE_GC.with(|f| *f.borrow_mut() = schedule.map(|s| (0, s)));
+}
+
+/// Number of allocations seen since `force_gc_at` was last called with `Some(..)`
+pub fn allocation_index() -> u64 {
+    FORCE_GC.with(|f| f.borrow().as_ref().map(|x| x.0).unwrap_or(0))
+}
+
+pub(crate) fn should_force_gc() -> bool {
+    FORCE_GC.with(|f| match f.borrow_mut().as_mut() {
+        None => false,
+        Some((i, sched)) => {
+            let idx = *i;
+            *i += 1;
+            match sched {
+                None => true,
+                Some(v) => v.contains(&idx),
+            }
+        }
+    })
+}
+
+// ---------------------------------------------------------------------------------------------
+// heap audit: everything reachable from the roots the interpreter can still use must be a live
+// object. Pointers are checked against the object list BEFORE they are dereferenced, so freed
+// memory is never read.
+
+#[derive(Debug, Clone, Default)]
+pub struct AuditStats {
+    pub objects: usize,
+    pub reachable: usize,
+    pub protected: usize,
+}
+
+pub fn heap_audit(rt: &RuntimeData) -> Result<AuditStats, String> {
+    let live: HashSet<usize> = rt.object_list.iter().map(|p| p.as_ptr() as usize).collect();
+    let mut seen: HashSet<usize> = HashSet::new();
+    let mut work: Vec<(NonNull<CaoLangObject>, String)> = Vec::new();
+    let mut stats = AuditStats {
+        objects: live.len(),
+        ..Default::default()
+    };
+    let stack_lo = rt.value_stack.as_slice().as_ptr() as usize;
+    let stack_hi = stack_lo + rt.value_stack.len() * std::mem::size_of::<Value>();
+
+    let push_val = |v: Value, why: String, work: &mut Vec<(NonNull<CaoLangObject>, String)>| {
+        if let Value::Object(o) = v {
+            work.push((o, why));
+        }
+    };
+    for (i, v) in rt.value_stack.iter().enumerate() {
+        push_val(v, format!("value stack slot {i}"), &mut work);
+    }
+    for (i, v) in rt.global_vars.iter().enumerate() {
+        push_val(*v, format!("global {i}"), &mut work);
+    }
+    for o in rt.object_list.iter() {
+        unsafe {
+            if matches!(o.as_ref().marker, GcMarker::Protected) {
+                stats.protected += 1;
+                work.push((*o, "guarded object".to_string()));
+            }
+        }
+    }
+    for (i, f) in rt.call_stack.iter().enumerate() {
+        if !f.closure.is_null() {
+            // the closure body lives inside its object: find the object that contains it
+            let addr = f.closure as usize;
+            let owner = rt.object_list.iter().find(|o| {
+                let lo = o.as_ptr() as usize;
+                lo <= addr && addr < lo + std::mem::size_of::<CaoLangObject>()
+            });
+            match owner {
+                Some(o) => work.push((*o, format!("closure of call frame {i}"))),
+                None => {
+                    return Err(format!(
+                        "the closure of call frame {i} is not inside a live object"
+                    ))
+                }
+            }
+        }
+    }
+    {
+        let mut u = rt.open_upvalues;
+        let mut n = 0;
+        while !u.is_null() {
+            if !live.contains(&(u as usize)) {
+                return Err(format!("open upvalue list entry {n} is not a live object"));
+            }
+            unsafe {
+                work.push((NonNull::new_unchecked(u), format!("open upvalue {n}")));
+                match (*u).as_upvalue() {
+                    Some(up) => u = up.next,
+                    None => return Err(format!("open upvalue list entry {n} is not an upvalue")),
+                }
+            }
+            n += 1;
+            if n > 1_000_000 {
+                return Err("open upvalue list is cyclic".to_string());
+            }
+        }
+    }
+    while let Some((o, why)) = work.pop() {
+        let addr = o.as_ptr() as usize;
+        if !live.contains(&addr) {
+            return Err(format!("dangling reference: {why} points to a freed object"));
+        }
+        if !seen.insert(addr) {
+            continue;
+        }
+        stats.reachable += 1;
+        unsafe {
+            match &o.as_ref().body {
+                CaoLangObjectBody::Table(t) => {
+                    for (n, k) in t.keys().iter().enumerate() {
+                        if let Value::Object(ko) = k {
+                            if !live.contains(&(ko.as_ptr() as usize)) {
+                                return Err(format!(
+                                    "dangling reference: key {n} of a table reached from ({why}) points to a freed object"
+                                ));
+                            }
+                        }
+                        push_val(*k, format!("key {n} of table reached from ({why})"), &mut work);
+                        // look the value up only when the key itself is intact
+                        if let Some(v) = t.get(k) {
+                            push_val(*v, format!("value {n} of table reached from ({why})"), &mut work);
+                        }
+                    }
+                }
+                CaoLangObjectBody::Closure(c) => {
+                    for (n, u) in c.upvalues.iter().enumerate() {
+                        work.push((*u, format!("upvalue {n} of closure reached from ({why})")));
+                    }
+                }
+                CaoLangObjectBody::Upvalue(u) => {
+                    let loc = u.location as usize;
+                    let own = (&u.value) as *const Value as usize;
+                    if loc == own {
+                        push_val(u.value, format!("value of closed upvalue reached from ({why})"), &mut work);
+                    } else if stack_lo <= loc && loc < stack_hi {
+                        push_val(*u.location, format!("stack cell of open upvalue reached from ({why})"), &mut work);
+                    }
+                    // an open upvalue whose cell is above the stack top designates a dead slot:
+                    // nothing to follow
+                }
+                CaoLangObjectBody::String(_)
+                | CaoLangObjectBody::Function(_)
+                | CaoLangObjectBody::NativeFunction(_) => {}
+            }
+        }
+    }
+    Ok(stats)
+}
